@@ -50,10 +50,10 @@ def run(p, led, tier):
     all_edges = [(w, b, rr) for w in OPS for b in OPS if w != b for rr in RES]
     graphs = [()] + [(e,) for e in all_edges] + list(itertools.combinations(all_edges, 2))
 
-    def setup(it, g, owner_r, preempt, a_holds_s=False):
+    def setup(it, g, owner_r, preempt, a_holds_s=False, holds=1, prios=(("a", 5), ("b", 1), ("c", 1))):
         c = it.instantiate(ctrl, [], {})
         ctxs = {}
-        for name, prio in (("a", 5), ("b", 1), ("c", 1)):
+        for name, prio in prios:
             oc = it.instantiate(ctx_cls0, [], dict(operation_id=name, agent_id="ag", priority=prio))
             ctxs[name] = oc
             c.fields["active_operations"][name] = oc
@@ -62,7 +62,7 @@ def run(p, led, tier):
             c.fields["resources"][rr] = lk
         if owner_r:
             lk = c.fields["resources"]["r"]
-            lk.fields.update(owner=owner_r, owner_priority=ctxs[owner_r].fields["priority"], hold_count=1)
+            lk.fields.update(owner=owner_r, owner_priority=ctxs[owner_r].fields["priority"], hold_count=holds)
             ctxs[owner_r].fields["acquired_resources"]["r"] = lk
         if a_holds_s:
             lk = c.fields["resources"]["s"]
@@ -71,6 +71,12 @@ def run(p, led, tier):
         ed = c.fields["dependency_graph"].fields["edges"]
         for (w, b, rr) in g:
             ed.setdefault(w, []).append((b, rr))
+            # a recorded wait is also a queued waiter of the lock (kept sorted by priority, highest first), as the
+            # controller's own blocked acquisition would have left it
+            lk = c.fields["resources"][rr]
+            if lk.fields.get("owner") == b and isinstance(lk.fields.get("waiting_list"), list) and all(x[0] != w for x in lk.fields["waiting_list"]):
+                lk.fields["waiting_list"].append((w, ctxs[w].fields["priority"]))
+                lk.fields["waiting_list"].sort(key=lambda x: -x[1])
         return c, ctxs
 
     def triples(c):
@@ -98,13 +104,15 @@ def run(p, led, tier):
             return frozenset(e for e in G if "a" not in (e[0], e[1]))
         raise ValueError(kind)
 
-    scenarios = [("acquire free", None, False), ("acquire own (re-entrant)", "a", False), ("acquire held (blocked)", "b", False), ("acquire pre-emptable", "b", True)]
-    for label, owner, preempt in scenarios:
+    LOWC = (("a", 5), ("b", 1), ("c", 0))        # c is less urgent than the owner b: it queues *behind* a displaced b
+    scenarios = [("acquire free", None, False, None), ("acquire own (re-entrant)", "a", False, None), ("acquire held (blocked)", "b", False, None),
+                 ("acquire pre-emptable", "b", True, None), ("acquire pre-emptable, a lower-priority waiter queued", "b", True, LOWC)]
+    for label, owner, preempt, prios in scenarios:
         bad, n = [], 0
         for g in graphs:
             def go(o):
                 it = Interp(p, o)
-                c, ctxs = setup(it, g, owner, preempt)
+                c, ctxs = setup(it, g, owner, preempt, **({"prios": prios} if prios else {}))
                 r = it.call_fi(acq, [c, ctxs["a"], "r"], {})
                 return (getattr(r, "name", repr(r)), triples(c))
             for _, (res_name, after) in explore(go, max_paths=20):
@@ -120,17 +128,18 @@ def run(p, led, tier):
                      witness="B is blocked on r1 held by A; C (higher priority) pre-empts r1; the graph must now say B→C")
         else:
             led.ok("C15-R1", key, where(acq, acq.node), f"{n} cases: the graph after the event equals the definition's delta")
-    for label, holds_s in (("release r, holding nothing else", False), ("release r while still holding s", True)):
+    for label, holds_s, holds in (("release r, holding nothing else", False, 1), ("release r while still holding s", True, 1),
+                                  ("partial release of r held twice (re-entrant): r stays owned", False, 2)):
         bad, n = [], 0
         for g in graphs:
             def go(o):
                 it = Interp(p, o)
-                c, ctxs = setup(it, g, "a", False, a_holds_s=holds_s)
+                c, ctxs = setup(it, g, "a", False, a_holds_s=holds_s, holds=holds)
                 it.call_fi(rel, [c, ctxs["a"], "r"], {})
                 return triples(c)
             for _, after in explore(go, max_paths=20):
                 n += 1
-                want = expected("RELEASE", g)
+                want = expected("RELEASE", g) if holds == 1 else frozenset(g)
                 if after != want:
                     bad.append(f"graph {sorted(g)}: got {sorted(after)}, definition gives {sorted(want)}")
         key = f"CellCycleController.release_resource ▸ {label} ▸ all graphs ≤ 2 edges"
